@@ -428,21 +428,19 @@ def respacings(r, src, spans, n_loose=2):
 # pipeline pieces
 
 def harness(work, vh, cases, tag, noast=False):
-    cpath, tpath = work.path(tag + ".cases.ndjson"), work.path(tag + ".trace.ndjson")
+    """replay on the real code; returns (trace lines for TLC, the same records without the AST for the classification)"""
+    cpath, tpath, lpath = work.path(tag + ".cases.ndjson"), work.path(tag + ".trace.ndjson"), work.path(tag + ".light.ndjson")
     vc.write_ndjson(cpath, cases)
-    vc.sh([vh, "c09parse", "-in", cpath, "-out", tpath, "-j", str(vc.NCPU)] + (["-noast"] if noast else []), timeout=3600)
+    vc.sh([vh, "c09parse", "-in", cpath, "-out", tpath, "-light", lpath, "-j", str(vc.NCPU)] + (["-noast"] if noast else []), timeout=3600)
     os.remove(cpath)
     with open(tpath) as f:
         lines = f.readlines()
     os.remove(tpath)
-    return lines
-
-
-def light(line):
-    """the fields of a trace record the classification needs (the AST stays in the text handed to TLC)"""
-    rec = json.loads(line)
-    rec.pop("ast", None)
-    return rec
+    recs = vc.read_ndjson(lpath)
+    os.remove(lpath)
+    if len(recs) != len(lines):
+        raise vc.ToolError("harness wrote %d trace lines and %d light records" % (len(lines), len(recs)))
+    return lines, recs
 
 
 def validate_lines(work, lines, tag, spans=False, timeout=900, per_shard=2500, mode="full"):
@@ -499,14 +497,11 @@ def validate_lines(work, lines, tag, spans=False, timeout=900, per_shard=2500, m
 
 
 def model_check(work, module, cfg_text, name, workers, timeout):
-    """one design-level TLC run with a generated config"""
-    cfg = os.path.join(vc.SPEC, "C09_%s_%d.cfg" % (name, os.getpid()))
+    """one design-level TLC run with a generated config (kept in the work directory)"""
+    cfg = work.path("C09_%s.cfg" % name)
     with open(cfg, "w") as f:
         f.write(cfg_text)
-    try:
-        return vc.tlc(work.dir, module, os.path.basename(cfg), workers=workers, timeout=timeout, xmx="3g", extra=["-noGenerateSpecTE"])
-    finally:
-        os.remove(cfg)
+    return vc.tlc(work.dir, module, cfg, workers=workers, timeout=timeout, xmx="3g", extra=["-noGenerateSpecTE"])
 
 
 def src_text(b):
@@ -580,10 +575,13 @@ class Checker:
             elif not real_rt:
                 good = False
                 fix = v["fix"]
-                if v["pr"] and not v["srt"] and fix["all"]:
-                    # the real code fails the law exactly as the specification OF THE CODE predicts, and the law holds with the
-                    # deviation(s) of query.go repaired: a genuine defect attributed to the finding(s) of those deviations
-                    rep.count("traces_validated_against_impl")
+                if not v["srt"] and fix["all"]:
+                    # the real code fails the law as the specification OF THE CODE predicts for this AST, and the law holds with
+                    # the deviation(s) of query.go repaired: a genuine defect attributed to the finding(s) of those deviations
+                    if v["pr"]:
+                        rep.count("traces_validated_against_impl")
+                    else:
+                        self.bump("printer_text_differs_from_spec")
                     devs = [d for d in ("emptyImport", "dotBracket") if fix.get(d)][:1] or ["emptyImport", "dotBracket"]
                     for d in devs:
                         self.finding(d, "%r prints as %r, which %s" % (src, src_text(rec["printed"]), how))
@@ -596,7 +594,7 @@ class Checker:
                 good = False
                 self.bump("printer_text_differs_from_spec")
                 if len(self.drift) < 5:
-                    self.drift.append("%r: String() = %r is not what the printer specification gives (it still round-trips)" % (src, src_text(rec["printed"])))
+                    self.drift.append("%s: String() = %s is not what the printer specification gives (it still round-trips)" % (repr(src)[:160], repr(src_text(rec["printed"]))[:160]))
             elif not v["srt"]:
                 raise vc.ToolError("SPEC-DRIFT: the specification predicts a round-trip failure the real code does not have: %r" % src)
             elif not rt.get("idem", True):
@@ -655,11 +653,11 @@ class Checker:
             part = cases[lo:lo + chunk]
             for i, c in enumerate(part):
                 c["id"] = lo + i
-            lines = harness(self.work, self.vh, part, family, noast=noast)
+            lines, lrecs = harness(self.work, self.vh, part, family, noast=noast)
             vs, stats = validate_lines(self.work, lines, family, spans=spans, timeout=timeout, mode=mode)
             self.rep.add_tlc(stats)
-            for line, v in zip(lines, vs):
-                rec = light(line)
+            del lines
+            for rec, v in zip(lrecs, vs):
                 self.classify(rec, v, family)
                 if spans:
                     recs.append(rec)
@@ -680,9 +678,8 @@ class Checker:
             if case.get("vars"):
                 c["vars"] = case["vars"]
             cases.append(c)
-        lines = harness(self.work, self.vh, cases, "again", noast=True)
-        for (kind, what, case, actual, expected), line in zip(self.pending, lines):
-            rec2 = light(line)
+        _, again_recs = harness(self.work, self.vh, cases, "again", noast=True)
+        for (kind, what, case, actual, expected), rec2 in zip(self.pending, again_recs):
             again = {"ok": rec2.get("ok"), "printed": rec2.get("printed"), "panic": rec2.get("panic"),
                      "rt": {k: x for k, x in rec2.get("rt", {}).items() if k != "ast2"}, "tn": rec2.get("tn"),
                      "vars": [{k: x for k, x in var.items() if k != "b"} for var in rec2.get("vars", [])]}
@@ -845,6 +842,8 @@ def run(tier, seed, replay):
 
         # ---- 5. the corpus
         cor = corpus(work, vh)
+        if quick:
+            cor = [s for s in cor if len(s) <= 4000]      # builtin.jq as ONE text (15 s of TLC) only in the thorough tier; its definitions stay
         rep.cov["corpus_texts"] = len(cor)
         recs_cor, ver_cor = ck.run_family("corpus", [{"srcB": list(s.encode("utf-8")), "tag": "corpus"} for s in cor], spans=True)
         cmuts = [mutate(r, r.choice(cor).encode("utf-8")) for _ in range(600 if quick else 6000)]
